@@ -1,6 +1,6 @@
 (* Properties/C15.v — pinned statements only. *)
 From Boreal Require Import Base.Prelude Base.Res Model.Eval Spec.CondSem Model.EvalCost Model.Scanner
-     Proofs.InterruptProofs Proofs.ScannerProofs Proofs.CallbackProofs Proofs.NoScanInterruptProofs.
+     Proofs.InterruptProofs Proofs.ScannerProofs Proofs.CallbackProofs Proofs.NoScanInterruptProofs Proofs.InterruptSound.
 
 (* A callback returning Abort at its k-th event: the scan returns CallbackAbort, exactly k events were
    delivered and they are the first k events of the uninterrupted scan, in the same order; if the
@@ -105,6 +105,30 @@ Theorem C15_noscan_flush_order_refuted :
   /\ ~ no_scan_events kf15n_cfg kf15n_inputs.
 Proof. exact noscan_flush_order_refuted. Qed.
 
+(* Nothing an interrupted scan delivered is spurious: every event (rule) it delivered before stopping is
+   delivered (returned) by the complete scan as well — for every configuration, rule set, input and
+   interruption point; the timeout forms under the same provisos as the prefix theorems above. *)
+Theorem C15_abort_no_spurious_event :
+  forall c k inp sc e, 1 <= k ->
+    In e (o_events (run_scan c (AbortAt k) inp sc)) -> In e (o_events (run_scan c Never inp sc)).
+Proof. exact abort_no_spurious_event. Qed.
+
+Theorem C15_timeout_no_spurious_event :
+  forall c j inp sc e, can_noscan c = false -> 1 <= j ->
+    In e (o_events (run_scan c (TimeoutAt j) inp sc)) -> In e (o_events (run_scan c Never inp sc)).
+Proof. exact timeout_no_spurious_event. Qed.
+
+Theorem C15_timeout_no_spurious_rule :
+  forall c j inp sc r, can_noscan c = false -> 1 <= j ->
+    (j <= i_ac_checks inp \/ nchecks (after_globals c inp sc) < j) ->
+    In r (o_rules (run_scan c (TimeoutAt j) inp sc)) -> In r (o_rules (run_scan c Never inp sc)).
+Proof. exact timeout_no_spurious_rule. Qed.
+
+Theorem C15_abort_events_le :
+  forall c k inp sc, 1 <= k ->
+    (length (o_events (run_scan c (AbortAt k) inp sc)) <= length (o_events (run_scan c Never inp sc)))%nat.
+Proof. exact abort_events_le. Qed.
+
 (* the simulation itself, for every procedure of the scan: until the interruption fires both runs are
    in the same state; afterwards the uninterrupted run only appends events *)
 Theorem C15_simulation_full_scan :
@@ -130,3 +154,7 @@ Print Assumptions C15_timeout_prefix_noscan.
 Print Assumptions C15_timeout_rules_prefix_noscan.
 Print Assumptions C15_noscan_flush_order_refuted.
 Print Assumptions C15_simulation_full_scan.
+Print Assumptions C15_abort_no_spurious_event.
+Print Assumptions C15_timeout_no_spurious_event.
+Print Assumptions C15_timeout_no_spurious_rule.
+Print Assumptions C15_abort_events_le.
